@@ -31,7 +31,7 @@ ASSUMPTIONS = [
     "lmax values {4, 6, 10, 12}; the harness passes full_lmax explicitly (the constructor default only supports lmax = 10, which is a rejection not a wrong grid)",
 ]
 DEPTH = 3
-MOLS = ["He", "LiH", "H2O", "OH", "HOH", "HSH"]
+MOLS = ["He", "LiH", "H2O", "OH", "HOH", "HSH", "HOHlab"]
 LMAXS = [4, 6, 10, 12]  # 12: above the package default, where shells of 170-302 points are the ones to be truncated
 OPS = [
     "build", "build:nosort", "build:non0", "prune:1e-12", "prune:1e-6", "prune:1e-2", "prune:0", "reset",
